@@ -237,8 +237,7 @@ type eSpec struct {
 	Focus    string // dotted instance path
 	Cond     int    // 0 none, 1 X.enabled, 2 X.enabled,global.on, 3 X.str,X.enabled, 4 X.map,X.enabled
 	Tags     int    // 0, 1 {t1}, 2 {t1,t2}
-	En       pair
-	Self     bool // the default of X.enabled sits in the dependency's own values.yaml
+	En       pair   // (default in the parent chart's values.yaml, user value) of X.enabled
 	On       pair
 	T1, T2   pair
 	Others   []int // background of the other dependencies: 0 plain, 1 switched off by the user, 2 tagged t1
@@ -285,11 +284,7 @@ func buildE(t tree, s eSpec) *Case {
 	case 2:
 		f.dep.Tags = []string{"t1", "t2"}
 	}
-	if s.Self {
-		setSwitch(f.def.Defaults, []string{"enabled"}, s.En.def)
-	} else {
-		setSwitch(q.def.Defaults, []string{x, "enabled"}, s.En.def)
-	}
+	setSwitch(q.def.Defaults, []string{x, "enabled"}, s.En.def)
 	setSwitch(cs.User, append(userPath(f), "enabled"), s.En.user)
 	setSwitch(q.def.Defaults, []string{"global", "on"}, s.On.def)
 	setSwitch(cs.User, []string{"global", "on"}, s.On.user)
@@ -350,10 +345,7 @@ func enumE(t tree, fullTables bool, emit func(eSpec)) {
 					t2s = big
 				}
 				for _, en := range ens {
-					for self := 0; self < 2; self++ {
-						if self == 1 && (cond != 1 || en.def == absent) {
-							continue
-						}
+					{
 						for _, on := range ons {
 							for _, t1 := range t1s {
 								for _, t2 := range t2s {
@@ -362,7 +354,7 @@ func enumE(t tree, fullTables bool, emit func(eSpec)) {
 										for i, x := 0, b; i < len(others); i, x = i+1, x/3 {
 											others[i] = x % 3
 										}
-										emit(eSpec{Tree: t.ID, Focus: f.dotted(), Cond: cond, Tags: tags, En: en, Self: self == 1, On: on, T1: t1, T2: t2, Others: others, OtherIDs: otherIDs})
+										emit(eSpec{Tree: t.ID, Focus: f.dotted(), Cond: cond, Tags: tags, En: en, On: on, T1: t1, T2: t2, Others: others, OtherIDs: otherIDs})
 									}
 								}
 							}
